@@ -100,11 +100,17 @@ RtF(kind, fmt, v) == [op |-> "rt", kind |-> kind, fmt |-> fmt, v |-> v, enum |->
 RtE(fmt, en, i) == [op |-> "rt", kind |-> "enum", fmt |-> fmt, v |-> en[i].v, enum |-> en, idx |-> i, hs |-> 1,
                     str |-> Format("enum", fmt, en[i].v, en, i)]
 
+\* the kinds of one class share one code path: the full value set goes through the first kind in both formats,
+\* the other kinds of the class get the class boundaries
+Few64 == UNION {Around(PowBytes(n, 8)) : n \in {0, 31, 32, 63}}
+Few32 == {Trunc(v, 4) : v \in UNION {Around(PowBytes(n, 8)) : n \in {0, 31, 32}}}
 Cases ==
-       {Rt(k, f, v) : k \in S64, f \in Fmts, v \in Values64}
-  \cup {Rt(k, f, v) : k \in U64, f \in Fmts, v \in Values64}
-  \cup {Rt(k, f, v) : k \in S32, f \in Fmts, v \in Values32}
-  \cup {Rt(k, f, v) : k \in U32, f \in Fmts, v \in Values32}
+       {Rt("int64", f, v) : f \in Fmts, v \in Values64}
+  \cup {Rt("uint64", f, v) : f \in Fmts, v \in Values64}
+  \cup {Rt("int32", f, v) : f \in Fmts, v \in Values32}
+  \cup {Rt("uint32", f, v) : f \in Fmts, v \in Values32}
+  \cup {Rt(k, f, v) : k \in (S64 \cup U64) \ {"int64", "uint64"}, f \in Fmts, v \in IF Tier = "quick" THEN Few64 ELSE Values64}
+  \cup {Rt(k, f, v) : k \in (S32 \cup U32) \ {"int32", "uint32"}, f \in Fmts, v \in IF Tier = "quick" THEN Few32 ELSE Values32}
   \cup {Rt("bool", f, v) : f \in Fmts, v \in {<<0>>, <<1>>}}
   \cup {Rt("bytes", f, v) : f \in Fmts, v \in Strings(MaxTok)}
   \cup {Rt("string", f, v) : f \in Fmts, v \in Strings(IF MaxTok > 1 THEN MaxTok - 1 ELSE 1)}
